@@ -260,3 +260,49 @@ PROPS = {
         explanation='D16 (helper-name collision with a nested-only non-terminal) repaired by a fix: commit.',
     ),
 }
+
+import lschecks
+
+PROPS.update({
+    'C27': dict(
+        level='exploration',
+        level_text='Exploration with the real language server: formatting requests over LSP on corpus and generated grammar texts with comments '
+                   'in many positions, under 5 option combinations; oracle = parol\'s own front end (same GrammarConfig, same significant '
+                   'token sequence, same comment sequence) and idempotence. No Gallina model of the ~1500-line formatter exists; what Rocq '
+                   'contributes is only the oracle argument (the grammar is a function of the significant token sequence - C17).',
+        level_note='Machine-checked proof does not decide this property: the check is differential exploration of the real binary. Trusted: '
+                   'Python LSP client, pv par (parol front end as oracle).',
+        technique='exploration of the real parol-ls over LSP with parol\'s own parser as oracle (no Rocq theorem decides it)',
+        custom=lschecks.c27, no_coq=True,
+        rule='all .par files of the repository under 6 kB (60 in the quick tier) + generated grammar texts with line/block comments before '
+             'and after every token class; non-trivial = the text contains at least one comment; distinct = distinct (text, options)',
+        explanation='Formatter checked as a black box: grammar equality, comment sequence equality, idempotence.',
+    ),
+    'C28': dict(
+        level='exploration',
+        level_text='Exploration with the real language server: prepareRename + rename at identifier occurrences of corpus and generated texts; '
+                   'the returned edits are applied and parol\'s own front end must read the result as the ORIGINAL grammar with exactly '
+                   'that symbol renamed everywhere and no other token changed. The Rocq side (Ls/Edits.v) states what applying a set of '
+                   'edits means; it does not model symbol resolution.',
+        level_note='Differential exploration; trusted: Python LSP client and edit application, pv par.',
+        technique='exploration of the real parol-ls over LSP with parol\'s own parser as oracle',
+        custom=lschecks.c28,
+        rule='up to 3 (thorough: all) identifier occurrences per text; fresh target name; non-trivial = at least 2 occurrences were renamed; '
+             'distinct = distinct (text, position)',
+        explanation='Consistent renaming = dump of the new grammar equals the dump of the old one with the name substituted.',
+    ),
+    'C30': dict(
+        level='exploration',
+        level_text='Exploration with the real language server: hover, definition, documentSymbol, prepareRename, rename, formatting and '
+                   'codeAction at positions inside, at the end of, past the end of lines and past the last line, on valid and broken texts '
+                   'with multi-byte characters, CRLF and unterminated last lines; a dead or silent server is a violation. The Rocq side '
+                   '(Ls/PosOffset.v) proves that the repaired pos_to_offset stays inside the text and on character boundaries.',
+        level_note='Panic-freedom of the Rust binary cannot be proved with the model; the run samples positions. Trusted: Python LSP client.',
+        technique='Rocq proof for pos_to_offset (model) + exploration of the real parol-ls over LSP',
+        custom=lschecks.c30,
+        rule='texts: corpus + generated, each also with multi-byte characters, CRLF, unterminated last line, one random corruption; positions: '
+             'first/last/past-last lines x columns 0, end-1, end, end+1, end+7, random; non-trivial = position past a line end / past the '
+             'last line, or on a line with non-ASCII characters; distinct = distinct (text, request, position)',
+        explanation='D10 (pos_to_offset off-by-one / non-boundary) repaired by a fix: commit.',
+    ),
+})
